@@ -356,9 +356,23 @@ struct KnownFinding {
   std::vector<std::string> properties;
   Json applies_if; // optional: {"domain": name, "params": {key: value,...}} the case must match
   // attribution to this finding is only attempted on cases it can be about
-  bool applies(const Json &cs) const {
+  bool applies(const Json &cs, const Json *violation = nullptr) const {
     if (applies_if.kind != Json::OBJ)
       return true;
+    // "monitor": the violation must come from that monitor
+    if (applies_if.has("monitor")) {
+      if (!violation || !violation->has("monitor") ||
+          violation->at("monitor").as_str() != applies_if.at("monitor").as_str())
+        return false;
+    }
+    // "where_contains": the place of the violation must carry a tag (e.g. "rec=1":
+    // the violating frame is inside a recursive re-entry)
+    if (applies_if.has("where_contains")) {
+      if (!violation || !violation->has("where") ||
+          violation->at("where").as_str().find(applies_if.at("where_contains").as_str()) ==
+              std::string::npos)
+        return false;
+    }
     if (applies_if.has("domain") &&
         (!cs.has("domain") || cs.at("domain").as_str() != applies_if.at("domain").as_str()))
       return false;
@@ -638,7 +652,7 @@ static int property_main(const Options &o) {
         continue;
       if (std::find(k.properties.begin(), k.properties.end(), o.property) == k.properties.end())
         continue;
-      if (!k.applies(cj.at("case")))
+      if (!k.applies(cj.at("case"), &cj.at("violation")))
         continue;
       std::string cn, hn, dn;
       if (fresh_replay(raw, k.overrides, cn, hn, dn) && cn != cls) {
@@ -692,7 +706,7 @@ static int property_main(const Options &o) {
         if (std::find(k.properties.begin(), k.properties.end(), o.property) ==
             k.properties.end())
           continue;
-        if (!k.applies(cj.at("case")))
+        if (!k.applies(cj.at("case"), &cj.at("violation")))
           continue;
         std::string cn, hn, dn;
         if (fresh_replay(fin, k.overrides, cn, hn, dn) && cn != cls)
